@@ -87,6 +87,10 @@ def _match_name_to_entry(name, entry):
 
 
 def _validate_name(name, settings, exception_cls=AttributeError):
+    if not isinstance(name, str):
+        # only strings name members; any other key (which may itself be a
+        # host object) is refused without being touched
+        raise exception_cls('Cannot access a member by a non-string key')
     if name.startswith('_'):
         raise exception_cls('Cannot access ' + name)
     whitelist = settings['whitelist']
